@@ -75,6 +75,19 @@ func (c WPCase) build() ([]byte, string, error) {
 			return wpmodel.Para{wpmodel.Run{Items: []wpmodel.Inline{{Kind: wpmodel.KTab}, {Kind: wpmodel.KText, Text: s}, {Kind: wpmodel.KTab}}}}
 		case "blanks":
 			return wpmodel.Para{wpmodel.Run{Items: []wpmodel.Inline{{Kind: wpmodel.KSpace, N: 2}, {Kind: wpmodel.KText, Text: s}, {Kind: wpmodel.KSpace, N: 1}}}}
+		case "splitruns":
+			// every word in a run of its own, and so is every blank between two words (what an editor leaves
+			// behind after the words were formatted one by one)
+			var p wpmodel.Para
+			for i, w := range strings.Split(s, " ") {
+				if i > 0 {
+					p = append(p, wpmodel.Run{Items: []wpmodel.Inline{{Kind: wpmodel.KSpace, N: 1}}})
+				}
+				if w != "" {
+					p = append(p, wpmodel.Run{Items: []wpmodel.Inline{{Kind: wpmodel.KText, Text: w}}})
+				}
+			}
+			return p
 		}
 		return wpPara(s)
 	}
@@ -233,7 +246,7 @@ func checkWP(c WPCase) error {
 
 func genWP(t *rapid.T) WPCase {
 	c := WPCase{Format: rapid.SampledFrom([]string{"docx", "odt"}).Draw(t, "format"), Option: rapid.SampledFrom([]string{"both", "headers", "footers"}).Draw(t, "option")}
-	c.Pad = rapid.SampledFrom([]string{"", "", "tabs", "blanks"}).Draw(t, "pad")
+	c.Pad = rapid.SampledFrom([]string{"", "", "tabs", "blanks", "splitruns"}).Draw(t, "pad")
 	if rapid.IntRange(0, 4).Draw(t, "hasHeader") > 0 {
 		c.Header = "Running header " + rapid.StringMatching(`[A-Z][a-z]{3,8}`).Draw(t, "hw")
 	}
